@@ -76,6 +76,7 @@ type c18Eng struct {
 	readyAt    int // number of commits seen when the writer became ready
 	afterReady int // Apply/Skip calls after the writer became ready (must stay 0)
 	onCommit   func(off int64)
+	onNotReady func() // ChangeRole(IsReady=false): the reader of a master-change open reached EOF
 }
 
 func c18NewEng(off int64) *c18Eng { return &c18Eng{off: off, ready: make(chan struct{})} }
@@ -132,6 +133,9 @@ func (e *c18Eng) Commit(off int64, meta []byte, safe int64) error {
 
 func (e *c18Eng) Revert(int64) (bool, error) { return false, nil }
 func (e *c18Eng) ChangeRole(i binlog.ChangeRoleInfo) error {
+	if !i.IsReady && e.onNotReady != nil {
+		e.onNotReady()
+	}
 	if i.IsReady {
 		e.mu.Lock()
 		if !e.isReady {
@@ -379,8 +383,42 @@ func (c *c18Ctx) c18Session(lg *c18Log, rnd *rand.Rand, s int, startOff int64, s
 	n := len(sizes)
 	r := c.r
 	opt := c18Opt(lg.dir, lg.chunk, delay)
-	bl, _ := NewFsBinlog(nil, opt)
+	variant := rnd.IntN(12) // 0: tiny HardMemLimit (back pressure), 1: master-change open, 2: last append left to the flush timer, 3: shutdown with unflushed data
+	if variant == 0 {
+		opt.HardMemLimit = 512 + rnd.IntN(8192)
+		c.w.Count("sessions.back_pressure", 1)
+	}
+	var bl BinlogReadWrite
 	e := c18NewEng(startOff)
+	if variant == 1 {
+		var pidCh chan struct{}
+		bl, pidCh, _ = NewFsBinlogMasterChange(nil, opt)
+		e.onNotReady = func() {
+			select {
+			case pidCh <- struct{}{}:
+			default:
+			}
+		}
+		c.w.Count("sessions.master_change_open", 1)
+	} else {
+		bl, _ = NewFsBinlog(nil, opt)
+	}
+	var rep *c18Replica
+	if rnd.IntN(5) == 0 && len(lg.appended) > 0 {
+		rep = c18StartReplica(lg.dir)
+		c.w.Count("sessions.with_concurrent_replica", 1)
+	}
+	appendPanicked := false
+	defer func() {
+		if rep != nil && appendPanicked {
+			// the state behind a panicking Append is undefined (the payload may or may not have
+			// reached the buffer): only stop the replica
+			rep.bl.RequestShutdown()
+			<-rep.done
+		} else if rep != nil {
+			c.c18FinishReplica(lg, rep)
+		}
+	}()
 	done := make(chan error, 1)
 	go func() {
 		defer func() {
@@ -424,7 +462,7 @@ func (c *c18Ctx) c18Session(lg *c18Log, rnd *rand.Rand, s int, startOff int64, s
 			}
 			c.w.Count("append.wrong_offset_refused", 1)
 		}
-		asap := rnd.IntN(4) == 0 || i == n-1
+		asap := rnd.IntN(4) == 0 || (i == n-1 && variant != 2 && variant != 3)
 		var next int64
 		var err error
 		if asap {
@@ -440,6 +478,7 @@ func (c *c18Ctx) c18Session(lg *c18Log, rnd *rand.Rand, s int, startOff int64, s
 			}
 			c.viol(key, fmt.Sprintf("Append panicked (writer session %d started at offset %d in the first chunk, MaxChunkSize %d, append at %d): %s", s, sessStart, lg.chunk, cur, c18Lines(pan, 1)),
 				c.witness(lg, map[string]any{"session": s, "session_start_off": sessStart, "append_at": cur, "payload_len": len(body), "panic": pan}))
+			appendPanicked = true
 			bl.RequestShutdown()
 			<-done
 			return false
@@ -465,6 +504,19 @@ func (c *c18Ctx) c18Session(lg *c18Log, rnd *rand.Rand, s int, startOff int64, s
 	dl := time.Now().Add(c18WaitCommit)
 	var early error
 	ended := false
+	if variant == 3 {
+		// stop request while appended data may still sit in the buffer: the loop has to write,
+		// fsync and commit it before Run returns
+		c.w.Count("sessions.shutdown_with_unflushed_data", 1)
+		bl.RequestShutdown()
+		early = <-done
+		if early != nil || e.lastCommit() < last {
+			c.viol("C18/writer/shutdown-loses-tail", fmt.Sprintf("shutdown right after Append: Run returned %v, last commit %d, last appended byte %d", early, e.lastCommit(), last),
+				map[string]any{"log": lg.id, "chunk": lg.chunk, "session": s})
+			return false
+		}
+		done <- nil
+	}
 	for e.lastCommit() < last && time.Now().Before(dl) && !ended {
 		select {
 		case early = <-done:
@@ -708,9 +760,18 @@ func (c *c18Ctx) c18Resumes(lg *c18Log, st *c18Stream, rnd *rand.Rand) {
 		}
 		idx := sort.Search(len(lg.appended), func(i int) bool { return lg.appended[i].Off >= cm.Off })
 		want := lg.appended[idx:]
-		for variant, meta := range [][]byte{cm.Meta, nil} {
+		earlier := []byte(nil)
+		for _, c0 := range lg.commits {
+			if c0.Off < cm.Off && c0.Off > 0 {
+				earlier = c0.Meta // replaced below when it lies in another chunk: the reader then ignores it
+			}
+		}
+		for variant, meta := range [][]byte{cm.Meta, nil, earlier} {
 			if variant == 1 && rnd.IntN(3) != 0 {
 				continue // resume without meta: sampled
+			}
+			if variant == 2 && (meta == nil || rnd.IntN(3) != 0) {
+				continue // resume at this offset with the snapshot meta of an earlier commit: sampled
 			}
 			res := c18Replay(lg.dir, cm.Off, meta)
 			c.w.Case(cm.Off > c18StartHdr && len(want) > 0, fmt.Sprintf("resume/%d/%d/%d", lg.id, cm.Off, variant))
@@ -749,7 +810,7 @@ func TestVerifC18(t *testing.T) {
 	}
 	r.Assume("process kill only (SIGKILL): bytes handed to write() survive; power loss is not simulated")
 	r.Assume("commit<=fsync is decided on the strace of a child process; strace sees syscalls in completion order of one writer goroutine")
-	nLogs := r.N(300, 10000)
+	nLogs := r.N(240, 3000)
 	if v, err := strconv.Atoi(os.Getenv("VERIF_C18_LOGS")); err == nil {
 		nLogs = v // calibration aid only
 	}
@@ -774,10 +835,10 @@ func TestVerifC18(t *testing.T) {
 }
 
 // c18Directed: scenarios the random plans reach only by luck.
-//  - a writer restarted while the first chunk is within 16 KiB of MaxChunkSize and rotating soon after
-//    (the md5 of the first chunk needs its last 16 KiB, which only the running writer buffers);
-//  - the same in a later chunk (control);
-//  - a log directory whose name contains a dot (not judged: path names are outside the statement).
+//   - a writer restarted while the first chunk is within 16 KiB of MaxChunkSize and rotating soon after
+//     (the md5 of the first chunk needs its last 16 KiB, which only the running writer buffers);
+//   - the same in a later chunk (control);
+//   - a log directory whose name contains a dot (not judged: path names are outside the statement).
 func c18Directed(r *verifkit.Run) {
 	r.Parallel(1, "directed", func(w *verifkit.Worker) {
 		c := &c18Ctx{r: r, w: w}
@@ -867,4 +928,69 @@ func c18Directed(r *verifkit.Run) {
 		}
 		os.RemoveAll(d)
 	})
+}
+
+// ---------------------------------------------------------------------------------------------
+// a reader in replica mode (endless, fsnotify) running next to a writer session
+
+type c18Replica struct {
+	bl   BinlogReadWrite
+	eng  *c18Eng
+	done chan error
+}
+
+func c18StartReplica(dir string) *c18Replica {
+	zero := time.Duration(0)
+	bl, _ := NewFsBinlog(nil, Options{PrefixPath: filepath.Join(dir, c18Prefix), Magic: c18Magic, ReplicaMode: true, WriteCallDelay: &zero})
+	rp := &c18Replica{bl: bl, eng: c18NewEng(0), done: make(chan error, 1)}
+	go func() {
+		defer func() {
+			if p := recover(); p != nil {
+				rp.done <- fmt.Errorf("PANIC %v\n%s", p, c18Lines(string(debug.Stack()), 24))
+			}
+		}()
+		rp.done <- bl.Run(0, nil, nil, rp.eng)
+	}()
+	return rp
+}
+
+// c18FinishReplica: after the writer session ended, the replica must arrive at exactly the
+// appended list (it may have read chunks while they were being written and rotated).
+func (c *c18Ctx) c18FinishReplica(lg *c18Log, rp *c18Replica) {
+	var want int64
+	if n := len(lg.appended); n > 0 {
+		want = lg.appended[n-1].pend()
+	}
+	dl := time.Now().Add(c18WaitCommit)
+	var err error
+	ended := false
+	for !ended && time.Now().Before(dl) {
+		_, _, off := rp.eng.snapshot()
+		if off >= want {
+			break
+		}
+		select {
+		case err = <-rp.done:
+			ended = true
+		default:
+			time.Sleep(500 * time.Microsecond)
+		}
+	}
+	if !ended {
+		rp.bl.RequestShutdown()
+		err = <-rp.done
+	}
+	evs, _, off := rp.eng.snapshot()
+	c.w.Case(len(lg.appended) > 0, fmt.Sprintf("replica/%d/%d", lg.id, len(lg.appended)))
+	wit := map[string]any{"log": lg.id, "chunk": lg.chunk, "files": c18FileSizes(lg.dir), "replica_offset": off, "run_error": fmt.Sprint(err)}
+	switch {
+	case err != nil:
+		c.viol("C18/replica/error-"+c18ErrClass(err), "a replica-mode reader next to a live writer ended with an error: "+c18Trim(err.Error(), lg.dir), wit)
+	case len(evs) > len(lg.appended) || !c18SameEvs(evs, lg.appended[:len(evs)]):
+		c.viol("C18/replica/differs", "a replica-mode reader next to a live writer delivered something else than the appended events: "+c18Diff(evs, lg.appended[:min(len(evs), len(lg.appended))]), wit)
+	case len(evs) < len(lg.appended):
+		c.r.Inconclusive(fmt.Sprintf("log %d: replica reader saw %d of %d events before the harness stopped waiting", lg.id, len(evs), len(lg.appended)))
+	default:
+		c.w.Count("replica.caught_up", 1)
+	}
 }
